@@ -96,6 +96,11 @@ def dec_ratio(x):
     return [str(f.numerator), str(f.denominator)]
 
 
+def scaled_ratio(x, sgn):
+    f = F(*float(x).as_integer_ratio()) * (1 + F(sgn, 2 ** 40))
+    return [str(f.numerator), str(f.denominator)]
+
+
 def ratio(x):
     n, d = float(x).as_integer_ratio()
     return [str(n), str(d)]
@@ -273,11 +278,21 @@ def run(ctx, cases, ref=False):
                 diff.append("me")
             return diff
         diff = structure_diff(mp)
-        if diff and structure_diff(md["printed"]):
-            diff = structure_diff(md["printed"]) if len(structure_diff(md["printed"])) < len(diff) else diff
-        elif diff:
+        if diff and not structure_diff(md["printed"]):
             dist["matches decimal-input model only"] += 1
             diff = []
+        if diff:
+            # a rounding tie of the pivot that binary division resolves the other way changes
+            # the structure (carry or no carry): the implementation must then agree with the
+            # exact algorithm on an input within 2^-40 (relative) of the actual one
+            def variants(x):
+                return [ratio(x), dec_ratio(x), scaled_ratio(x, -1), scaled_ratio(x, 1)]
+            alts = ctx.model([dict(cmd="print_model", style=c["style"], mode=c["mode"], n=c["n"],
+                                   v=vv, e=ee)
+                              for vv in variants(c["v"]) for ee in variants(c["e"])], ref=ref)
+            if any("fail" not in a and not structure_diff(a["printed"]) for a in alts):
+                dist["matches model on input*(1 +- 2^-40) only"] += 1
+                diff = []
         if diff:
             failures.append({"signature": "c09:structure:{}:{}".format(",".join(diff), cls),
                              "kind": "disagreement",
@@ -331,7 +346,7 @@ def make_cases(ctx, n_pairs, dist):
 
 def correspond(ctx, ref=False, boost=1):
     dist = collections.Counter()
-    cases = corpus() + make_cases(ctx, ctx.n(450, 12000) * boost, dist)
+    cases = corpus() + make_cases(ctx, ctx.n(450, 9000) * boost, dist)
     failures, nontriv, skipped, d2, samples = [], set(), 0, collections.Counter(), []
     CH = 40000
     for i in range(0, len(cases), CH):
